@@ -417,7 +417,12 @@ def oracle_forest(w):
                 bad.append("ir n%d lists a module twice" % n)
             colls = [("modules", mods)]
         else:
-            colls = [(f, list(getattr(o, f))) for f in FIELDS.get(kind, {})]
+            colls = []
+            for f in FIELDS.get(kind, {}):
+                try:
+                    colls.append((f, list(getattr(o, f))))
+                except Exception as e:  # noqa: BLE001  (the attribute no longer is a collection: a consistency violation, not a crash of the check)
+                    bad.append("n%d.%s cannot be iterated (it is a %s): %s" % (n, f, type(getattr(o, f, None)).__name__, type(e).__name__))
         for f, members in colls:
             for c in members:
                 cn = w.num.get(id(c))
@@ -453,6 +458,8 @@ def oracle_forest(w):
             bad.append("n%d.module is %s, the forest implies %s" % (n, _nm(w, o.module), _nm(w, want.get("Module"))))
         if kind in ("ByteInterval", "CodeBlock", "DataBlock") and o.section is not want.get("Section"):
             bad.append("n%d.section is %s, the forest implies %s" % (n, _nm(w, o.section), _nm(w, want.get("Section"))))
+    if any("cannot be iterated" in b for b in bad):
+        return bad                      # the containment tree itself cannot be walked: nothing further can be compared
     # aggregate iterators
     for n, o in w.obj.items():
         kind = w.kind[n]
